@@ -8,6 +8,7 @@ import (
 	"fmt"
 	"math"
 	"os"
+	"reflect"
 	"runtime"
 	"strconv"
 	"strings"
@@ -166,15 +167,34 @@ func verifSetFile(path string, data string, exists bool) {
 }
 
 // verifSameBacking: do two lists share their top-level backing array? (lemma only)
+// Natively found by reflection: the first slice-typed field of the struct behind each value, so the harness
+// does not name the implementation's types or fields.
 func verifSameBacking(a, b any) bool {
-	la, ok1 := a.(*list)
-	lb, ok2 := b.(*list)
-	if !ok1 || !ok2 || cap(la.val) == 0 || cap(lb.val) == 0 {
-		return false
+	end := func(v any) (uintptr, bool) {
+		rv := reflect.ValueOf(v)
+		for rv.IsValid() && (rv.Kind() == reflect.Ptr || rv.Kind() == reflect.Interface) {
+			if rv.IsNil() {
+				return 0, false
+			}
+			rv = rv.Elem()
+		}
+		if !rv.IsValid() || rv.Kind() != reflect.Struct {
+			return 0, false
+		}
+		for i := 0; i < rv.NumField(); i++ {
+			f := rv.Field(i)
+			if f.Kind() == reflect.Slice {
+				if f.Cap() == 0 {
+					return 0, false
+				}
+				return f.Pointer() + uintptr(f.Cap())*f.Type().Elem().Size(), true
+			}
+		}
+		return 0, false
 	}
-	fa := la.val[:cap(la.val)]
-	fb := lb.val[:cap(lb.val)]
-	return &fa[cap(fa)-1] == &fb[cap(fb)-1]
+	ea, ok1 := end(a)
+	eb, ok2 := end(b)
+	return ok1 && ok2 && ea == eb
 }
 
 // verifUF is an arbitrary but fixed pure function (uninterpreted in the solver).
